@@ -200,13 +200,13 @@ LiteralPct(r, m) == IF r = "tag" THEN NumPct(Written(r, m)) ELSE NumPct(Written(
 (*  - a filter message in which a placeholder directly follows a percent     *)
 (*    sign ("%%(y)s": escaped percent + text, or percent + placeholder?)     *)
 (*  - %(count)s in a message of the t filter (the docs reserve count/plural) *)
-(*  - the literal characters %(y)s written as text inside a tag block        *)
+(* (the literal characters %(y)s written as TEXT inside a tag block are claimed: a tag block's variables are written   *)
+(*  {{ y }}; everything else in the block is message text and is output unchanged, percent signs included)             *)
 AmbiguousPh(t) == \E i \in 2..Len(t) : PhEnd(t, i) # 0 /\ t[i - 1] = "%"
 Claimed(c) ==
   LET m == ReqChosen(c) IN
   /\ (c.route # "tag" => ~AmbiguousPh(Written(c.route, m)))
   /\ ~(c.route = "t" /\ HasAtom(m, "PC") /\ c.count.kind # "none")
-  /\ ~(c.route = "tag" /\ HasAtom(m, "LIT"))
 
 (* everything the requirement layer says about one case *)
 Requirement(cs) ==
